@@ -9,6 +9,10 @@ Decided (per engine path: try_tantivy_search, search_with_lex_fallback, search_w
              and the hit's rank derives from hits.len().
   FLOW-C10c  where a hit's text is a slice `chunk_text[s..e]`, its `range` is (chunk_start + s, chunk_start + e) with
              the same two bounds, in that order, and chunk_range is the chunk's own (start, end).
+  UNIT-C10d  byte offsets and character offsets are different units: the ranges of TextChunkManifest (TextChunkRange
+             start/end, produced by the chunk planner) count characters, while ChunkInfo.start/end and
+             SearchHit.range/chunk_range index bytes of the document text. No TextChunkRange field may flow into a
+             ChunkInfo / SearchHit offset (with multi-byte text the range no longer selects the hit's text).
 Not decided: that the text satisfies the query semantics (values); the rarely-taken filters-only path ignores
 request.uri/scope (recorded in DESIGN.md as an untriaged candidate, not armed)."""
 from . import lib
@@ -19,7 +23,35 @@ ENGINES = ('memvid::search::tantivy::try_tantivy_search', 'memvid::search::fallb
 FILTERED = ENGINES[:2]
 
 
+BYTE_SINKS = {'ChunkInfo': ('start', 'end'), 'SearchHit': ('range', 'chunk_range')}
+
+
+def _units(ctx, F):
+    ctx.rule('UNIT-C10d', 'no character offset (TextChunkRange.start/end) flows into a byte offset (ChunkInfo.start/end, SearchHit.range/chunk_range)')
+    n = 0
+    for f in sorted(F.fns.values(), key=lambda x: x.path):
+        if f.r.get('derive'):
+            continue
+        for bb, i, st in f.stmts():
+            rv = st['rv']
+            if rv['k'] == 'agg' and rv.get('ak') == 'adt' and rv.get('adt') in BYTE_SINKS:
+                for fld in BYTE_SINKS[rv['adt']]:
+                    if fld not in rv['fields']:
+                        continue
+                    n += 1
+                    ctx.evaluations += 1
+                    sl = lib.slice_back(f, [rv['ops'][rv['fields'].index(fld)]], through_calls=True, at=(bb, i))
+                    ctx.touch(f, 1)
+                    if sl.has_field('TextChunkRange', 'start') or sl.has_field('TextChunkRange', 'end'):
+                        ctx.bad('UNIT-C10d', f, '%s.%s (a byte offset into the document text) is computed from TextChunkRange.start/end, which count characters: with multi-byte text the range '
+                                'no longer selects the text of the hit' % (rv['adt'], fld), line=st.get('l'), sink='%s.%s' % (rv['adt'], fld), detail='char-offset-as-byte-offset:%s.%s' % (rv['adt'], fld))
+                    else:
+                        ctx.ok('UNIT-C10d', f, '%s.%s does not derive from a character offset' % (rv['adt'], fld), line=st.get('l'))
+    ctx.floor('UNIT-C10d', n, 6, 'byte-offset sinks (ChunkInfo / SearchHit constructions)')
+
+
 def run(ctx):
+    _units(ctx, ctx.facts())
     ctx.rule('MPT-C10a', 'candidate acceptance only on the true edge of ParsedQuery::evaluate; uri/scope reach a producer filter or a dominating comparison')
     ctx.rule('GUARD-C10b', 'SearchHit pushed only while hits.len() != effective top_k; rank from hits.len()')
     ctx.rule('FLOW-C10c', 'hit.text = chunk_text[s..e] and hit.range = (chunk_start+s, chunk_start+e) use the same bounds in order')
